@@ -1,4 +1,5 @@
-// c19gen: generates, from the go/ast of the CURRENT <repo>/control tree, the file that check C19 injects into
+// c19gen: generates, from the go/ast of the CURRENT <repo>/control tree, the file that check C19 injects (check.json
+// "replace": control/zz_verif_c19_layout_gen.go -> $WORK/c19_layout_gen.go, written by the prebuild hook) into
 // package control (//go:build verif). The generated file exports
 //   VerifC19Types   one entry per bpf* data struct the real-mode build compiles (and, as renamed copies, the
 //                   bpf_stub.go declarations that the real-mode build replaces by bpf_utils.go ones): unsafe.Sizeof,
@@ -187,6 +188,7 @@ func main() {
 		entries = append(entries, entry{n, n, d.file, "compiled", d.st})
 	}
 	var copies bytes.Buffer
+	ncopies := 0
 	for _, d := range shadowed {
 		if !reBpfName.MatchString(d.name) || !isData(d.st, 0) {
 			continue
@@ -198,6 +200,7 @@ func main() {
 		}
 		fmt.Fprintf(&copies, "// copy of the bpf_stub.go declaration of %s (replaced by %s in the real-mode build)\ntype %s %s\n\n", d.name, live[d.name].file, cn, b.String())
 		entries = append(entries, entry{d.name, cn, d.file, "stub-shadowed", d.st})
+		ncopies++
 	}
 	if len(entries) < 5 {
 		die("only %d bpf* data structs found — naming convention changed, update c19gen", len(entries))
@@ -314,5 +317,5 @@ func main() {
 	if err := os.Rename(tmp, *out); err != nil {
 		die("%v", err)
 	}
-	fmt.Printf("c19gen: %d struct entries (%d shadowed stub copies), PARAM literal from %s\n", len(entries), len(shadowed), paramFile)
+	fmt.Printf("c19gen: %d struct entries (%d shadowed stub copies), PARAM literal from %s\n", len(entries), ncopies, paramFile)
 }
